@@ -74,7 +74,13 @@ func (d *Driver) read() {
 				}
 
 				b = []byte(ss[1])
-			} else if d.Channel.PromptPattern.Match(b) {
+			} else if loc := d.Channel.PromptPattern.FindIndex(b); loc != nil {
+				// only look at the first complete message in the buffer: whatever follows its
+				// delimiter (the start of the next message, or of an echoed request) stays in
+				// the buffer for the next round instead of being filed (or dropped) with it
+				rest := b[loc[1]:]
+				b = b[:loc[1]]
+
 				var messageID int
 
 				var subID int
@@ -111,7 +117,7 @@ func (d *Driver) read() {
 					d.storeSubscriptionMessage(subID, b)
 				}
 
-				b = nil
+				b = append([]byte(nil), rest...)
 			}
 		}
 
